@@ -19,7 +19,7 @@ import (
 	"math/big"
 	"math/rand"
 	"os"
-	"runtime"
+	"runtime/metrics"
 	"runtime/debug"
 	"sort"
 	"strings"
@@ -32,6 +32,7 @@ import (
 	"github.com/dominant-strategies/go-quai/p2p/pb"
 	"github.com/dominant-strategies/go-quai/rlp"
 	"github.com/dominant-strategies/go-quai/rpc"
+	"github.com/dominant-strategies/go-quai/trie"
 	"google.golang.org/protobuf/proto"
 	"google.golang.org/protobuf/reflect/protoreflect"
 )
@@ -40,6 +41,7 @@ import (
 
 type carrier struct {
 	Name  string
+	All   int                                        // > 0: every defect case is applied to variants 0..All-1
 	Kind  string                                     // proto | bytes | json
 	Build func(seed int64, variant int) proto.Message // proto carriers
 	Raw   func(seed int64, variant int) []byte        // other carriers
@@ -103,6 +105,16 @@ var carriers = []*carrier{
 	}},
 	{Name: "gossip-share-scrypt", Kind: "proto", Build: func(s int64, v int) proto.Message { return shareWith("scrypt", s, v) }},
 	{Name: "gossip-share-btc", Kind: "proto", Build: func(s int64, v int) proto.Message { return shareWith("btc", s, v) }},
+	{Name: "gossip-block-consistent", All: 3, Kind: "proto", Build: func(s int64, v int) proto.Message {
+		return mustProto(consistentWO([]string{"", "kawpow", "btc"}[v%3], s).ConvertToBlockView().ProtoEncode())
+	}},
+	{Name: "gossip-header-consistent", All: 3, Kind: "proto", Build: func(s int64, v int) proto.Message {
+		return mustProto(consistentWO([]string{"", "kawpow", "btc"}[v%3], s).ConvertToHeaderView().ProtoEncode())
+	}},
+	{Name: "gossip-share-consistent", All: 5, Kind: "proto", Build: func(s int64, v int) proto.Message {
+		wo := consistentWO([]string{"scrypt", "kawpow", "btc", "", "bch"}[v%5], s)
+		return mustProto(wo.ConvertToWorkObjectShareView(wo.Transactions()).ProtoEncode())
+	}},
 	{Name: "gossip-auxtemplate", Kind: "proto", Build: func(s int64, v int) proto.Message {
 		return objOf("AuxTemplate", s, v).(*types.AuxTemplate).ProtoEncode()
 	}},
@@ -220,6 +232,80 @@ var carriers = []*carrier{
 	}},
 }
 
+// consistentWO builds a zone work object whose commitments hold (transaction / uncle / outbound-ETX roots,
+// lock byte, number near genesis, times after the donor signature time), so that the gossip validator's
+// sanity checks pass and its deeper branches (AuxPow cross-checks, PoW filter) are reached.  chain = "" means
+// a transition-period ProgPoW header without AuxPow.
+func consistentWO(chain string, s int64) *types.WorkObject {
+	g := &Gen{Seed: s, Type: "WOConsistent"}
+	wo := buildWO(Shape{"hfork": "post", "txs": T, "etxs": T, "uncles": T, "manifest": Z, "interlink": Z, "tx": A}, g)
+	sh := woHeaderShapeFor("fork")
+	if chain == "" {
+		sh["auxpow"] = A
+	} else {
+		sh["auxpow"] = chain
+	}
+	wh := buildWoHeader(sh, g, "")
+	wh.SetNumber(big.NewInt(1))
+	wh.SetLock(0)
+	wh.SetTime(1700000000 + 1<<21)
+	wh.SetLocation(homeLoc)
+	hasher := func() types.TrieHasher { return trie.NewStackTrie(nil) }
+	wo.SetWorkObjectHeader(wh)
+	// roots are computed over the form a receiver holds (Qi public keys are uncompressed in memory after a
+	// wire trip, and the root hashes the in-memory RLP form)
+	p, err := wo.ProtoEncode(types.BlockObject)
+	if err != nil {
+		panic(err)
+	}
+	dec := new(types.WorkObject)
+	if err := dec.ProtoDecode(p, homeLoc, types.BlockObject); err != nil {
+		panic(err)
+	}
+	wo = dec
+	wh = wo.WorkObjectHeader()
+	wh.SetTxHash(types.DeriveSha(types.Transactions(wo.Transactions()), hasher()))
+	if chain != "" {
+		// the donor coinbase commits to the seal hash (through the aux merkle root for the Scrypt chain) and
+		// the donor header commits to the coinbase
+		id := powIDs[chain]
+		seal := wh.SealHash()
+		commit := seal
+		var a2 []byte
+		if chain == "scrypt" {
+			doge := g.Hash("doge", 0)
+			a2 = doge.Bytes()
+			commit = types.CreateAuxMerkleRoot(doge, seal)
+		}
+		out := append([]byte{0x01, 0, 0, 0, 0, 0, 0, 0, 0, 0x19, 0x76, 0xa9, 0x14}, g.AddrBytes("cbout", 0, homeLoc, false)...)
+		out = append(out, 0x88, 0xac, 0, 0, 0, 0)
+		cb := types.NewAuxPowCoinbaseTx(id, 123456, out, commit, 1700000000)
+		branch := [][]byte{g.Hash("br", 0).Bytes(), g.Hash("br", 1).Bytes()}
+		root := types.CalculateMerkleRoot(id, cb, branch)
+		hdr := types.NewBlockHeader(id, 0x20000000, g.Hash("prev", 0), root, 1700000500, 0x1d00ffff, 7, 123456)
+		if id != types.Kawpow { // the constructors stamp time.Now(); pin it
+			raw := hdr.Bytes()
+			raw[68], raw[69], raw[70], raw[71] = 0xf4, 0xf2, 0x53, 0x65 // 1700000500 little endian
+			var inner types.AuxHeaderData = &types.BitcoinHeaderWrapper{}
+			if id == types.SHA_BCH {
+				inner = &types.BitcoinCashHeaderWrapper{}
+			} else if id == types.Scrypt {
+				inner = &types.LitecoinHeaderWrapper{}
+			}
+			if err := inner.Deserialize(bytes.NewReader(raw)); err != nil {
+				panic(err)
+			}
+			hdr = types.NewAuxPowHeader(inner)
+		}
+		wh.SetAuxPow(types.NewAuxPow(id, hdr, a2, g.Bytes("sig", T, 0), branch, cb))
+	}
+	h := wo.Body().Header()
+	h.SetTxHash(types.DeriveSha(types.Transactions(wo.Transactions()), hasher()))
+	h.SetOutboundEtxHash(types.DeriveSha(types.Transactions(wo.OutboundEtxs()), hasher()))
+	h.SetUncleHash(types.CalcUncleHash(wo.Uncles()))
+	return wo
+}
+
 // shareWith: a work-share whose header carries a SHA / Scrypt donor proof (the validator has chain-specific
 // branches for these)
 func shareWith(chain string, s int64, v int) proto.Message {
@@ -261,6 +347,13 @@ func (c *carrier) instance(seed int64, variant int) proto.Message {
 		protoMemo[k] = m
 	}
 	return proto.Clone(m)
+}
+
+func maxInt(a, b int) int {
+	if a > b {
+		return a
+	}
+	return b
 }
 
 func carrierByName(n string) *carrier {
@@ -330,7 +423,7 @@ func initEntries1() {
 	}
 	entries = append(entries,
 		unm("block", &types.WorkObjectBlockView{}), unm("header", &types.WorkObjectHeaderView{}), unm("share", &types.WorkObjectShareView{}),
-		&entry{Name: "gossip-unmarshal-share-donor", Carriers: []string{"gossip-share-scrypt", "gossip-share-btc"}, Reach: "peer-worker",
+		&entry{Name: "gossip-unmarshal-share-donor", Carriers: []string{"gossip-share-scrypt", "gossip-share-btc", "gossip-share-consistent"}, Reach: "peer-worker",
 			Run: func(b []byte) error {
 				var out interface{}
 				return pb.UnmarshalAndConvert(b, homeLoc, &out, &types.WorkObjectShareView{})
@@ -672,11 +765,32 @@ func bigBytes(r *rand.Rand, n int) []byte {
 }
 
 // applyDefect mutates field fd of message m.
-func applyDefect(m protoreflect.Message, fd protoreflect.FieldDescriptor, kind string, r *rand.Rand) {
+// sv selects deterministically among the sub-variants of a defect kind; the number of sub-variants the field
+// offers is returned so that the caller can walk through all of them.
+func applyDefect(m protoreflect.Message, fd protoreflect.FieldDescriptor, kind string, r *rand.Rand, sv int) (subVariants int) {
+	subVariants = 1
+	pick := func(n int) int {
+		if n > subVariants {
+			subVariants = n
+		}
+		return sv % n
+	}
 	if kind == "missing" {
 		m.Clear(fd)
 		return
 	}
+	defer func() {
+		if kind == "wrongkind" && fd.ContainingOneof() != nil && !fd.ContainingOneof().IsSynthetic() {
+			// oneof members: "wrongkind" switches to a sibling member
+			sibs := fd.ContainingOneof().Fields()
+			s := sibs.Get(pick(sibs.Len()))
+			if s.Kind() == protoreflect.MessageKind {
+				m.Set(s, protoreflect.ValueOfMessage(m.NewField(s).Message()))
+			} else if s.Kind() == protoreflect.BytesKind {
+				m.Set(s, protoreflect.ValueOfBytes(bigBytes(r, 5)))
+			}
+		}
+	}()
 	if fd.IsList() {
 		l := m.Mutable(fd).List()
 		switch kind {
@@ -685,7 +799,7 @@ func applyDefect(m protoreflect.Message, fd protoreflect.FieldDescriptor, kind s
 				l.Truncate(l.Len() - 1)
 			}
 		case "oversized":
-			n := []int{1, 300}[r.Intn(2)]
+			n := []int{1, 300}[pick(2)]
 			for i := 0; i < n; i++ {
 				if l.Len() > 0 && fd.Kind() != protoreflect.MessageKind {
 					l.Append(l.Get(r.Intn(l.Len())))
@@ -717,21 +831,22 @@ func applyDefect(m protoreflect.Message, fd protoreflect.FieldDescriptor, kind s
 		cur := m.Get(fd).Bytes()
 		switch kind {
 		case "truncated":
-			m.Set(fd, protoreflect.ValueOfBytes(append([]byte{}, cur[:len(cur)/2]...)))
+			alt := [][]byte{append([]byte{}, cur[:len(cur)/2]...), {}, append([]byte{}, cur[:maxInt(len(cur)-1, 0)]...)}
+			m.Set(fd, protoreflect.ValueOfBytes(alt[pick(len(alt))]))
 		case "oversized":
-			n := []int{len(cur) + 1, 33, 65, 70000}[r.Intn(4)]
+			n := []int{len(cur) + 1, 33, 65, 70000}[pick(4)]
 			m.Set(fd, protoreflect.ValueOfBytes(bigBytes(r, n)))
 		case "wrongkind":
-			alt := [][]byte{{}, {0}, {0xff}, bigBytes(r, 20), bigBytes(r, 32), {0x0a, 0x02, 0x08, 0x01}}
-			m.Set(fd, protoreflect.ValueOfBytes(alt[r.Intn(len(alt))]))
+			alt := [][]byte{{0}, {0xff}, bigBytes(r, 20), bigBytes(r, 32), {0x0a, 0x02, 0x08, 0x01}, {0, 0, 0, 0}}
+			m.Set(fd, protoreflect.ValueOfBytes(alt[pick(len(alt))]))
 		}
 	case protoreflect.StringKind:
 		m.Set(fd, protoreflect.ValueOfString(strings.Repeat("x", map[string]int{"truncated": 0, "oversized": 70000, "wrongkind": 3}[kind])))
 	case protoreflect.Uint64Kind, protoreflect.Fixed64Kind:
-		v := map[string]uint64{"truncated": 0, "oversized": ^uint64(0), "wrongkind": []uint64{3, 7, 255, 256, 65536, 1 << 32, 1171500, 1171500 + 100000}[r.Intn(8)]}[kind]
+		v := map[string]uint64{"truncated": 0, "oversized": ^uint64(0), "wrongkind": []uint64{3, 7, 255, 256, 65536, 1 << 32, 1171500, 1171500 + 100000}[pick(8)]}[kind]
 		m.Set(fd, protoreflect.ValueOfUint64(v))
 	case protoreflect.Uint32Kind, protoreflect.Fixed32Kind:
-		v := map[string]uint32{"truncated": 0, "oversized": ^uint32(0), "wrongkind": []uint32{0, 1, 2, 3, 4, 5, 7, 255, 256, 65536}[r.Intn(10)]}[kind]
+		v := map[string]uint32{"truncated": 0, "oversized": ^uint32(0), "wrongkind": []uint32{0, 1, 2, 3, 4, 5, 7, 255, 256, 65536}[pick(10)]}[kind]
 		m.Set(fd, protoreflect.ValueOfUint32(v))
 	case protoreflect.Int64Kind, protoreflect.Int32Kind, protoreflect.BoolKind, protoreflect.EnumKind:
 		m.Clear(fd)
@@ -762,16 +877,7 @@ func applyDefect(m protoreflect.Message, fd protoreflect.FieldDescriptor, kind s
 			m.Set(fd, protoreflect.ValueOfMessage(m.NewField(fd).Message()))
 		}
 	}
-	// oneof members: "wrongkind" switches to a sibling member
-	if kind == "wrongkind" && fd.ContainingOneof() != nil && !fd.ContainingOneof().IsSynthetic() {
-		sibs := fd.ContainingOneof().Fields()
-		s := sibs.Get(r.Intn(sibs.Len()))
-		if s.Kind() == protoreflect.MessageKind {
-			m.Set(s, protoreflect.ValueOfMessage(m.NewField(s).Message()))
-		} else if s.Kind() == protoreflect.BytesKind {
-			m.Set(s, protoreflect.ValueOfBytes(bigBytes(r, 5)))
-		}
-	}
+	return
 }
 
 type fuzzCase struct {
@@ -921,7 +1027,7 @@ func panicClass(r interface{}) string {
 }
 
 func topFrame(stack []byte) string {
-	// first go-quai frame below the panic
+	// first go-quai frame below the panic: its function, or (for inlined closures) its source file
 	lines := strings.Split(string(stack), "\n")
 	seenPanic := false
 	for _, l := range lines {
@@ -929,7 +1035,20 @@ func topFrame(stack []byte) string {
 			seenPanic = true
 			continue
 		}
-		if seenPanic && strings.Contains(l, "go-quai/") && !strings.HasPrefix(l, "\t") {
+		if !seenPanic {
+			continue
+		}
+		if strings.HasPrefix(l, "\t") {
+			if i := strings.Index(l, "/repo/"); i >= 0 {
+				f := l[i+len("/repo/"):]
+				if j := strings.Index(f, ":"); j > 0 {
+					f = f[:j]
+				}
+				return f
+			}
+			continue
+		}
+		if strings.Contains(l, "go-quai/") {
 			if i := strings.LastIndex(l, "("); i > 0 {
 				l = l[:i]
 			}
@@ -937,6 +1056,15 @@ func topFrame(stack []byte) string {
 		}
 	}
 	return ""
+}
+
+var allocSample = []metrics.Sample{{Name: "/gc/heap/allocs:bytes"}}
+
+// heapAllocs: cumulative bytes allocated by the process (cheap, no stop-the-world; background goroutines of
+// the booted cores add a little noise, far below the 64 MiB slack of the bound)
+func heapAllocs() uint64 {
+	metrics.Read(allocSample)
+	return allocSample[0].Value.Uint64()
 }
 
 type fuzzRun struct {
@@ -955,8 +1083,7 @@ const allocPerByte = 64
 func (f *fuzzRun) feed(e *entry, carr, origin string, b []byte) {
 	f.calls++
 	f.perEntry[e.Name]++
-	var m0, m1 runtime.MemStats
-	runtime.ReadMemStats(&m0)
+	a0 := heapAllocs()
 	var perr interface{}
 	var stack []byte
 	var err error
@@ -969,8 +1096,7 @@ func (f *fuzzRun) feed(e *entry, carr, origin string, b []byte) {
 		}()
 		err = e.Run(b)
 	}()
-	runtime.ReadMemStats(&m1)
-	alloc := m1.TotalAlloc - m0.TotalAlloc
+	alloc := heapAllocs() - a0
 	if alloc > f.maxAlloc[e.Name] {
 		f.maxAlloc[e.Name] = alloc
 	}
@@ -1101,8 +1227,19 @@ func cmdFuzz(args []string) {
 				must(fmt.Errorf("unknown carrier %q", fc.Carrier))
 			}
 			cases++
-			for k := 0; k < *inst; k++ {
-				m := c.instance(*seed+int64(k), (cases+k)%7).ProtoReflect()
+			rounds := *inst
+			if c.All > 0 {
+				rounds = c.All * *inst
+			}
+			subs := 1
+			for k := 0; k < rounds*subs; k++ {
+				sv := k / rounds
+				k := k % rounds
+				variant := (cases + k) % 7
+				if c.All > 0 {
+					variant = k % c.All
+				}
+				m := c.instance(*seed+int64(k/maxInt(c.All, 1)), variant).ProtoReflect()
 				var targets []protoreflect.Message
 				collectMsgs(m, fc.Msg, &targets, 0)
 				if len(targets) == 0 {
@@ -1122,7 +1259,12 @@ func cmdFuzz(args []string) {
 						if fd == nil {
 							must(fmt.Errorf("field table drift: %s.%s", fc.Msg, fn))
 						}
-						applyDefect(tm, fd, fc.Defects[fn], r)
+						if n := applyDefect(tm, fd, fc.Defects[fn], r, sv+cases*len(fields)/2*(len(fields)-1)); len(fields) == 1 && n > subs && sv == 0 {
+							subs = n
+							if subs > 6 {
+								subs = 6
+							}
+						}
 					}
 				}
 				b, err := proto.Marshal(m.Interface())
@@ -1133,7 +1275,7 @@ func cmdFuzz(args []string) {
 				for _, fn := range fields {
 					ds = append(ds, fn+"="+fc.Defects[fn])
 				}
-				origin := "defect:" + fc.Msg + "{" + strings.Join(ds, ",") + "}"
+				origin := fmt.Sprintf("defect:%s{%s}#%d", fc.Msg, strings.Join(ds, ","), sv)
 				for _, e := range entriesFor(c.Name) {
 					f.feed(e, c.Name, origin, b)
 				}
@@ -1148,10 +1290,17 @@ func cmdFuzz(args []string) {
 		if c.Kind == "proto" {
 			nv = 3
 		}
+		if c.All > nv {
+			nv = c.All
+		}
 		for v := 0; v < nv; v++ {
 			var base []byte
 			if c.Kind == "proto" {
-				base, _ = proto.Marshal(c.instance(*seed, v*3))
+				if c.All > 0 {
+					base, _ = proto.Marshal(c.instance(*seed, v))
+				} else {
+					base, _ = proto.Marshal(c.instance(*seed, v*3))
+				}
 			} else {
 				base = c.Raw(*seed, v)
 			}
@@ -1198,7 +1347,13 @@ func cmdFuzzOne(args []string) {
 	fs := flag.NewFlagSet("fuzzone", flag.ExitOnError)
 	en := fs.String("entry", "", "")
 	hx := fs.String("hex", "", "")
+	carr := fs.String("carrier", "", "use the valid encoding of this carrier instead of -hex")
+	variant := fs.Int("variant", 0, "")
 	fs.Parse(args)
+	if *carr != "" {
+		b, _ := proto.Marshal(carrierByName(*carr).Build(1, *variant))
+		*hx = hex.EncodeToString(b)
+	}
 	log.Global.ExitFunc = func(code int) { panic(fatalExit{code}) }
 	setupEntries()
 	b, err := hex.DecodeString(*hx)
